@@ -1,4 +1,7 @@
-import BoolFn
+import BoolFn.Convert
+import BoolFn.Parser
+import BoolFn.Csv
+import BoolFn.Render
 /-! Wire format of the correspondence protocol: S-expressions (DESIGN.md Appendix B). -/
 namespace Driver
 open BoolFn
